@@ -69,6 +69,12 @@ def generate(tier, seed):
         lines += ["NEW", "EVAL (setq a '(1 2)) (setq b 5) (setq c '((k . v)))", "EVAL " + p, "EVAL " + p, "EVAL " + p, "DUMP a b c"]
     for c in macro_cases():
         lines += c
+    for loop in ["(dotimes (i 4) %s)", "(dolist (i '(0 1 2 3)) %s)", "(dotimes (i 3) (dotimes (j 2) %s))", "(let ((i 0)) (while (< i 4) %s (setq i (+ i 1))))"]:
+        for keep in ["(setq acc (append acc (list i)))", "(setq acc (cons i acc))", "(setq acc (cons (list i 'x) acc))", "(puthash i i tb)", "(setq acc (cons (lambda () i) acc))",
+                     "(if (equal i 0) (setq first (list i 'first)))", "(setq acc `(,i ,@acc))", "(setq acc (cons (format \"%d\" i) acc))"]:
+            lines += ["NEW", "EVAL (setq acc nil) (setq first nil) (setq tb (make-hash-table))", "EVAL " + loop % keep,
+                      "EVAL (list acc first (mapcar (lambda (k) (gethash k tb)) '(0 1 2 3)) (mapcar (lambda (e) (if (consp e) e (if (numberp e) e (if (stringp e) e (funcall e))))) acc))",
+                      "EVAL (list acc first)"]
     return {"lines": lines, "nontrivial": len(nt), "distribution": {"library_cases": len(combos)}}
 
 def oracle(lines, impl, model, meta):
